@@ -164,6 +164,7 @@ STATES = {
     "everything": {"s": "h", "i": 2, "f": 0.5, "b": "YQ==", "ch": "p", "sec": "s", "l": [3], "d": {"k": 2}, "any": [1], "sub": {"c": "c", "deep": {"e": "e"}},
                    "items": [{"c": 9, "s": "z"}], "t": {"c": "q"}},
     "dynamic": {"extra": {"k": [1, "two"]}},
+    "empty-values": {"b": "", "s": "", "ud": {}, "any": []},        # an empty byte string, empty text, empty untyped containers
     "nested-items": {"dl": {"k": [{"c": 1, "s": "nested-secret-1"}, {"c": 2}], "j": []}, "items": [{"c": 3, "s": "i3"}]},
     "white-space": {"s": "  padded  ", "sub": {"c": "trailing newline\n"}, "any": [" x ", "   "], "ud": {"k": "\tv "}, "t": {"c": " t"}, "extra": " dyn "},
 }
@@ -172,7 +173,7 @@ PRIORS = ["same-format", "other-format", "absent"]
 
 
 def bounds(tier):
-    return {"states": list(STATES) if tier == "thorough" else ["scalars", "secrets", "items-2", "everything", "bytes-digest", "containers", "nulls", "white-space", "nested-items"],
+    return {"states": list(STATES) if tier == "thorough" else ["scalars", "secrets", "items-2", "everything", "bytes-digest", "containers", "nulls", "white-space", "nested-items", "empty-values"],
             "formats": FORMATS, "priors": PRIORS, "exception_classes": sorted(exc_classes(tier))}
 
 
